@@ -1270,8 +1270,6 @@ class FnT:
         name, bounds, params, ret, body = ast
         env0 = Env()
         ps = []
-        for tv in tvars:
-            pass
         for d in self.dicts:
             for n, t in dict_params(d):
                 if d["kind"] in ("Xmd", "Xof"):
